@@ -232,6 +232,8 @@ class Exec(StmtMixin):
                 m = z3.And(m, self.spec_bool(when, self.entry, old=self.entry))
             alts.append(m)
         self.oblige(st, "raises", "only-declared", z3.Or(alts), line, assume=False)
+        for name in getattr(c, "never_raises_", []):
+            self.oblige(st, "raises", "never:" + name, z3.Not(self.exc_is(exc.t, name)), line, assume=False)
         for lbl, en, when, ens, exact in c.raises_:
             m = self.exc_is(exc.t, en)
             s2 = st.copy().assume(m)
